@@ -608,6 +608,51 @@ static void caseJ(uint64_t i, vr::Ctx& ctx)
     ctx.poll_reports();
 }
 
+// ---- section J2 (round 6): every token character in a cookie name of a Cookie header --------------------------------
+// cookie-name = token (RFC 6265 4.1.1 / RFC 7230 3.2.6): ALPHA / DIGIT / ! # $ % & ' * + - . ^ _ ` | ~ ; the pair in the middle of
+// three must be stored whatever token character its name starts with, ends with or consists of
+static std::string gTchars;
+static uint64_t nJ2;
+static void caseJ2(uint64_t i, vr::Ctx& ctx)
+{
+    bool space = i % 2 == 0;
+    int shape  = int(i / 2 % 4);
+    char c     = gTchars[i / 8];
+    std::string n = shape == 0 ? std::string(1, c) : shape == 1 ? std::string(1, c) + "x" : shape == 2 ? std::string("x") + c : std::string("x") + c + "y";
+    std::string sep = space ? "; " : ";";
+    for (int pos = 0; pos < 3; ++pos)
+    {
+        std::vector<std::pair<std::string, std::string>> pairs = { { "first", "1" }, { "last", "2" } };
+        pairs.insert(pairs.begin() + pos, { n, "v" });
+        std::string text;
+        PairSet want;
+        for (size_t k = 0; k < pairs.size(); ++k)
+        {
+            text += (k ? sep : "") + pairs[k].first + "=" + pairs[k].second;
+            want.insert(pairs[k]);
+        }
+        ctx.note("cookie header value=" + vr::show(text));
+        ctx.count("evaluations", 1);
+        ctx.nontrivial(vr::hash_str(text, 13));
+        CookieJar jar;
+        Exact b(text);
+        std::string et, ew;
+        int k = guard([&] { jar.addFromRaw(b.p, b.n); }, et, ew);
+        if (k)
+            ctx.violation("c17:jar:valid-header-rejected", "{\"cookie_header\":" + vr::jstr(vr::show(text)) + ",\"error\":" + vr::jstr(ew) + "}");
+        else
+            check_jar(jar, want, text, "CookieJar::addFromRaw", ctx);
+        std::string msg = "GET / HTTP/1.1\r\nCookie: " + text + "\r\n\r\n";
+        Http::RequestParser p(4096);
+        pc::Outcome o = pc::step(p, msg.data(), msg.size());
+        if (o.kind != pc::DONE)
+            ctx.violation("c17:jar:valid-header-rejected", "{\"cookie_header\":" + vr::jstr(vr::show(text)) + ",\"via\":\"request parser\",\"outcome\":" + vr::jstr(o.str() + " " + o.what) + "}");
+        else
+            check_jar(p.request.cookies(), want, text, "request parser", ctx);
+    }
+    ctx.poll_reports();
+}
+
 // ---- section M ---------------------------------------------------------------------------------------------
 static const char* kMPrefix[] = { "", "a", "a=", "a=b", "a=b;", "a=b; ", "a=b; Path", "a=b; Path=", "a=b; Max-Age=", "a=b; Max-Age=1", "a=b; Expires=",
                                   "a=b; Expires=Sun, 06 Nov 1994 08:49:37 GMT", "a=b; Secure", "a=b; e1", "a=b; e1=", "a=b; e1=v; " };
@@ -670,6 +715,10 @@ int main(int argc, char** argv)
     init_W();
     init_H();
     nJ       = 2 * gb::count_upto(12, 4);
+    for (int ch = 33; ch < 127; ++ch)
+        if (isalnum(ch) || strchr("!#$%&'*+-.^_`|~", ch))
+            gTchars += char(ch);
+    nJ2 = gTchars.size() * 8;
     nMsuf    = gb::count_upto(gb::kNSigma, Ls);
     bMper    = (nMsuf + kBlock - 1) / kBlock;
     nMblocks = bMper * kNMPrefix;
@@ -687,7 +736,12 @@ int main(int argc, char** argv)
         else if (idx < bW + bH)
             block(idx - bW, nH, caseH);
         else if (idx < bW + bH + bJ)
+        {
             block(idx - bW - bH, nJ, caseJ);
+            if (idx == bW + bH) // (the whole of J2 rides on the first J block: 616 small headers)
+                for (uint64_t s2 = 0; s2 < nJ2; ++s2)
+                    caseJ2(s2, ctx);
+        }
         else
             caseM(idx - bW - bH - bJ, ctx);
         if (idx % 61 == 0)
